@@ -383,6 +383,12 @@ func (s *Sim) processHookEvents() {
 func (ss *Session) removeOut(o *OutMsg) {
 	for i, x := range ss.Out {
 		if x == o {
+			if ss.Taint["deferred"] && o.Sent {
+				if ss.StaleDeferred == nil {
+					ss.StaleDeferred = map[string]bool{}
+				}
+				ss.StaleDeferred[o.M.ID] = true
+			}
 			ss.Out = append(ss.Out[:i], ss.Out[i+1:]...)
 			return
 		}
